@@ -602,6 +602,16 @@ def rule_g(ctx, ix):
            detail='IndexedData._to_original_view takes `%s[k]` for every kept dimension without completing a shorter view: '
                   'get_data(cid, view=(slice(0, 1),)) of a 2-d indexed dataset raises IndexError where the parent dataset answers' % v,
            where=f.where)
+    # a boolean mask with the shape of the indexed dataset: translated to index arrays (one per kept dimension) first
+    def mask_to_indices(e):
+        return isinstance(e, ast.Call) and call_name(e) in ('nonzero', 'where', 'argwhere') and e.args and unparse(e.args[0]) == v or \
+            isinstance(e, ast.Call) and isinstance(e.func, ast.Attribute) and e.func.attr == 'nonzero' and unparse(e.func.value) == v
+    mpcs = pcs(mask_to_indices)
+    okm = any(any('bool' in a and v in a for a in cond.atoms(pc)) for pc in mpcs)
+    ctx.ob(R, f.construct + ' mask', 'a boolean-mask view is translated to index arrays before one entry is taken per kept dimension', okm,
+           detail='IndexedData._to_original_view takes `%s[k]` of a boolean mask - a row of the mask - for every kept dimension: '
+                  'get_data(cid, view=mask) of an indexed dataset raises IndexError where the parent dataset answers full[mask]' % v,
+           where=f.where)
     single = pcs(wrapped)
     ok = False
     for pc in single:
